@@ -6,7 +6,7 @@
 //! the vector of characters of the word (splice of vectors), not on byte offsets / run-length
 //! encoded cluster lengths as the repo does.
 use crate::core::*;
-use crate::gen::chars_of;
+use crate::gen::{self, chars_of};
 use rand::seq::IndexedRandom;
 use rand::{Rng as _, SeedableRng};
 use rand_chacha::ChaCha8Rng;
@@ -336,6 +336,8 @@ fn gen_pipe_word(rng: &mut Rng, alpha: &[&str]) -> String {
     let n = match rng.random_range(0..10) {
         0 => 1,
         1 => 2,
+        // `large` lane: 1 in 8 words is up to 10 times longer
+        _ if gen::scale() > 1 && rng.random_range(0..8) == 0 => rng.random_range(8..=70),
         _ => rng.random_range(3..=7),
     };
     (0..n).map(|_| *alpha.choose(rng).unwrap()).collect()
@@ -360,7 +362,8 @@ fn gen_pipe_case(rng: &mut Rng) -> PipeCase {
         let nw = match rng.random_range(0..12) {
             0 => 0,
             1 => 1,
-            _ => rng.random_range(2..=8),
+            // `large` lane: texts of up to 300 words (the repo compiles a regex per word)
+            _ => rng.random_range(2..=gen::sc(8).min(300)),
         };
         let mut ws = vec![];
         for _ in 0..nw {
@@ -1005,6 +1008,10 @@ impl Prop for C15 {
             Lane::new("pipeline", tier.pick(2_500, 25_000))
                 .cap(tier.pick(150, 1200))
                 .floor(tier.pick(300, 3_000)),
+            // the pipeline generator with texts of up to 300 words and words of up to 70 symbols
+            Lane::new("large", tier.pick(600, 10_000))
+                .cap(tier.pick(150, 1200))
+                .floor(tier.pick(40, 800)),
         ]
     }
 
@@ -1044,7 +1051,7 @@ impl Prop for C15 {
     }
 
     fn generate(rng: &mut Rng, _tier: Tier, lane: &str) -> Case {
-        if lane == "pipeline" {
+        if lane == "pipeline" || lane == "large" {
             Case { lane: lane.to_string(), edit: None, pipe: Some(gen_pipe_case(rng)) }
         } else {
             Case { lane: lane.to_string(), edit: Some(gen_edit_case(rng)), pipe: None }
